@@ -29,7 +29,7 @@ def confirm(prop, ab, src):
     try:
         r = sh(['git', '-C', '/repo', 'worktree', 'add', '-q', '--detach', wt, 'HEAD'])
         assert r.returncode == 0, r.stderr
-        env = dict(os.environ, PYTHONPATH=wt, PYTHONHASHSEED='0', SCMO_ROOT=wt)
+        env = dict(os.environ, PYTHONPATH=wt, PYTHONHASHSEED='0', SCMO_ROOT=wt, SCMO_WORKTREE=wt)
         # some demonstrations derive the package root from their own location (<worktree>/seeded_out/<X>/demo.py): run them from there
         os.makedirs(os.path.join(wt, 'seeded_out', ab), exist_ok=True)
         demo = os.path.join(wt, 'seeded_out', ab, 'demo.py')
